@@ -20,8 +20,10 @@ pub const BIN: &str = "/verif/sim/target/repo-bin/release/muxide";
 pub enum Input {
     /// valid hex text of these bytes; style: 0 plain lower, 1 upper, 2 whitespace/newlines, 3 trailing newline
     Hex { data: crate::case::Hex, style: u8 },
-    OddLength,
-    NonHex,
+    /// hex of these bytes plus one extra digit (odd number of digits); empty data = a short literal
+    OddLength(#[serde(default)] crate::case::Hex),
+    /// hex of these bytes with one non-hex character spliced in; empty data = a short literal
+    NonHex(#[serde(default)] crate::case::Hex),
     Empty,
     WhitespaceOnly,
     NonUtf8,
@@ -41,8 +43,8 @@ impl Input {
     fn name(&self) -> &'static str {
         match self {
             Input::Hex { .. } => "hex",
-            Input::OddLength => "odd-length",
-            Input::NonHex => "non-hex",
+            Input::OddLength(_) => "odd-length",
+            Input::NonHex(_) => "non-hex",
             Input::Empty => "empty",
             Input::WhitespaceOnly => "whitespace-only",
             Input::NonUtf8 => "non-utf8",
@@ -243,8 +245,26 @@ fn materialise(dir: &Path, name: &str, inp: &Input) -> std::io::Result<()> {
     let p = dir.join(name);
     match inp {
         Input::Hex { data, style } => std::fs::write(&p, hex_text(&data.0, *style)),
-        Input::OddLength => std::fs::write(&p, b"00000001674"),
-        Input::NonHex => std::fs::write(&p, b"0000000167zz42"),
+        Input::OddLength(d) => {
+            if d.0.is_empty() {
+                std::fs::write(&p, b"00000001674")
+            } else {
+                // an otherwise perfectly acceptable frame followed by a lone digit
+                let mut t = hex_text(&d.0, 0);
+                t.push(b'7');
+                std::fs::write(&p, t)
+            }
+        }
+        Input::NonHex(d) => {
+            if d.0.is_empty() {
+                std::fs::write(&p, b"0000000167zz42")
+            } else {
+                let mut t = hex_text(&d.0, 0);
+                let at = (t.len() / 2) & !1;
+                t[at] = b'g';
+                std::fs::write(&p, t)
+            }
+        }
         Input::Empty => std::fs::write(&p, b""),
         Input::WhitespaceOnly => std::fs::write(&p, b" \n\t \r\n"),
         Input::NonUtf8 => std::fs::write(&p, [0x30, 0x30, 0xff, 0xfe, 0x80, 0x30, 0x31]),
@@ -320,8 +340,10 @@ pub fn gen(rng: &mut Rng, scenario: &str) -> CliCase {
     let acodec = if rng.chance(1, 2) { Some(*rng.pick(&ACODECS_REAL)) } else { None };
     let aframe = acodec.map(|a| frames::build_audio(rng, a, stamp ^ 1, 20, true).data);
     let style = |rng: &mut Rng| rng.below(4) as u8;
-    let bad_input = |rng: &mut Rng| -> Input {
-        rng.pick(&[Input::OddLength, Input::NonHex, Input::Empty, Input::WhitespaceOnly, Input::NonUtf8, Input::Directory, Input::Missing, Input::DanglingSymlink, Input::SymlinkLoop]).clone()
+    let vframe_for_bad = vframe.clone();
+    let bad_input = move |rng: &mut Rng| -> Input {
+        let f = if rng.bool() { Hex(vframe_for_bad.clone()) } else { Hex(vec![]) };
+        rng.pick(&[Input::OddLength(f.clone()), Input::OddLength(f.clone()), Input::NonHex(f), Input::Empty, Input::WhitespaceOnly, Input::NonUtf8, Input::Directory, Input::Missing, Input::DanglingSymlink, Input::SymlinkLoop]).clone()
     };
     let vnames: &[&str] = match vcodec {
         VCodec::H264 => &["h264", "H264", "h.264", "avc", "AVC"],
@@ -394,7 +416,11 @@ pub fn gen(rng: &mut Rng, scenario: &str) -> CliCase {
                         0 => video = Some(bad_input(rng)),
                         1 => {
                             if audio.is_some() {
-                                audio = Some(bad_input(rng))
+                                audio = Some(match (bad_input(rng), &aframe) {
+                                    (Input::OddLength(h), Some(a)) if !h.0.is_empty() => Input::OddLength(Hex(a.clone())),
+                                    (Input::NonHex(h), Some(a)) if !h.0.is_empty() => Input::NonHex(Hex(a.clone())),
+                                    (x, _) => x,
+                                })
                             } else {
                                 video = Some(bad_input(rng))
                             }
@@ -944,8 +970,8 @@ fn eval_in(c: &CliCase, st: &mut RunStats, dir: &Path, out: &mut Vec<Violation>)
 fn fs_kind(i: &Input) -> &'static str {
     match i {
         Input::Hex { .. } => "input_valid_hex",
-        Input::OddLength => "input_odd_length_hex",
-        Input::NonHex => "input_non_hex",
+        Input::OddLength(_) => "input_odd_length_hex",
+        Input::NonHex(_) => "input_non_hex",
         Input::Empty => "input_empty",
         Input::WhitespaceOnly => "input_whitespace_only",
         Input::NonUtf8 => "input_non_utf8(InvalidData)",
